@@ -20,7 +20,17 @@ Inverse-pair contracts, each with a per-type abstraction function that abstracts
   S1  serializer.loads(serializer.dumps(stmt), metadata) compiles to the same string and parameters on two dialects and
       returns the same rows on SQLite (DML: has the same effect on the tables, observed inside a rolled-back transaction)
   S2  serializer.loads(serializer.dumps(x), metadata) is x  for a Table / a Column of a Table of that MetaData
+  S3  "equal in state" for statements: collections_view(loads(dumps(stmt))) == collections_view(stmt), where collections_view = for every
+      selectable inside the statement (SelectBase.selected_columns / exported_columns, FromClause.c / exported_columns / primary_key /
+      foreign_keys) the answers of EVERY read operation of the ColumnCollection interface (keys, iteration, [key], [index], [tuple], [slice],
+      get, attribute access, `in`, items, values, contains_column, corresponding_column), a returned column being named by its position in
+      the collection; and the statements derived from a Select through a by-key lookup (`with_only_columns(selected_columns[k])`) have the
+      same SQL and return the same rows.  M1's view contains the same collection view of Table.c / primary key / constraint / index columns.
 for pickle protocols 2..5.
+
+Every statement of S1 / S3 is serialized in two histories: "fresh" (built and serialized at once, nothing memoized on it) and "memoized"
+(its column collections were read and it was compiled before it is serialized, as an application that inspected or executed it does;
+memoized attributes travel in the pickle).
 
 Scope of S1 / S2 (exact numbers in coverage.scope): (a) a fixed catalogue of ORM / Core statements over the un-schema'd mappings;
 (b) GENERATED over a second MetaData whose table names are not unique — "users" without a schema and in the schemas "archive" and
@@ -30,9 +40,17 @@ alias self-join, subquery, CTE, labels + aggregate, scalar subquery, correlated 
 Column, INSERT / UPDATE / DELETE) x every table, every pair shape (join, IN-subquery, UNION ALL, foreign-key join) x every
 ordered pair of tables, plus ORM statements on the schema-qualified classes; executed on SQLite with the schemas ATTACHed, each
 table holding different rows.
+
+Scope of S3 on colliding keys (part "collections", GENERATED): every sequence of 1..2 (thorough: 1..3) column expressions, repetition
+allowed, over a pool of 6 expressions of 3 of those tables in which column names, keys and explicit labels collide (users.id, users.name,
+archive.users.id, archive.users.rank, notes.body AS name, users.id + 1 AS id) x statement shape (select, select from a subquery of it,
+text().columns(), UNION ALL) x label style (NONE: colliding keys stay; DISAMBIGUATE_ONLY; TABLENAME_PLUS_COL) x history (fresh, memoized)
+x channel (ext.serializer against the MetaData, plain pickle) x protocol; statements that SQLAlchemy itself refuses to build are counted
+and skipped.
 """
 import json
 import pickle
+import re
 import time
 import warnings
 
@@ -211,7 +229,10 @@ def metadata_view(md):
             except Exception as e:  # noqa: BLE001
                 ddl[dn] = "ddl-error:" + type(e).__name__
         out["tables"][name] = dict(schema=t.schema, columns=cols, constraints=cons, indexes=idx, ddl=ddl, comment=t.comment, info=dict(t.info),
-                                   pk=[c.name for c in t.primary_key.columns])
+                                   pk=[c.name for c in t.primary_key.columns],
+                                   collections=dict(c=coll_view(t.c), primary_key=coll_view(t.primary_key.columns),
+                                                    constraints=sorted((coll_view(k.columns) for k in t.constraints if hasattr(k, "columns")), key=repr),
+                                                    indexes=sorted((coll_view(i.columns) for i in t.indexes), key=repr)))
     return out
 
 
@@ -222,6 +243,81 @@ def stmt_view(stmt):
         c = stmt.compile(dialect=d)
         out[dn] = [str(c), {k: abstract(v) for k, v in sorted(c.params.items())}]
     return out
+
+
+def col_id(c):
+    """a column expression with identity abstracted: its kind (visit name: ORM annotation wrappers are representation), the name of the
+    selectable it belongs to, its rendering"""
+    t = getattr(c, "table", None)
+    try:
+        txt = str(c)
+    except Exception as e:  # noqa: BLE001
+        txt = "str-error:" + type(e).__name__
+    return [getattr(c, "__visit_name__", type(c).__name__), None if t is None else str(getattr(t, "fullname", None) or getattr(t, "name", None) or type(t).__name__), txt]
+
+
+def coll_view(cc):
+    """abstract view of a ColumnCollection = the answers of every read operation of its interface; a column that an operation returns is
+    named by the position(s) it has in the collection itself (identity abstracted), or by col_id when it is not a member"""
+    cols = list(cc)
+
+    def pos(c):
+        if c is None:
+            return None
+        at = [i for i, x in enumerate(cols) if x is c]
+        return at if at else ["not-a-member"] + col_id(c)
+
+    def attempt(f):
+        try:
+            return f()
+        except Exception as e:  # noqa: BLE001
+            return "exc:" + type(e).__name__
+    keys = list(cc.keys())
+    uniq = list(dict.fromkeys(keys))
+    anon = {}
+
+    def kname(k):       # anonymous label keys "%(<id of the object> name)s": the id is numbered by first appearance
+        return re.sub(r"%\((\d+) ", lambda m: "%%(anon#%d " % anon.setdefault(m.group(1), len(anon) + 1), repr(k))
+    v = dict(type=type(cc).__name__, len=len(cc), keys=[kname(k) for k in keys], columns=[col_id(c) for c in cols])
+    v["getitem_key"] = {kname(k): attempt(lambda: pos(cc[k])) for k in uniq}
+    v["get"] = {kname(k): attempt(lambda: pos(cc.get(k))) for k in uniq}
+    v["getattr"] = {k: attempt(lambda: pos(getattr(cc, k))) for k in uniq if isinstance(k, str) and k.isidentifier() and not k.startswith("_")}
+    v["contains_key"] = {kname(k): attempt(lambda: k in cc) for k in uniq}
+    v["getitem_index"] = [attempt(lambda: pos(cc[i])) for i in range(len(cols))]
+    v["getitem_beyond"] = attempt(lambda: pos(cc[len(cols)]))
+    v["items"] = attempt(lambda: [[kname(k), pos(c)] for k, c in cc.items()])
+    v["values"] = attempt(lambda: [pos(c) for c in cc.values()])
+    v["getitem_tuple"] = attempt(lambda: [pos(c) for c in cc[tuple(uniq)]]) if uniq else []
+    v["getitem_slice"] = attempt(lambda: [pos(c) for c in cc[0:2]])
+    v["contains_column"] = [attempt(lambda: cc.contains_column(c)) for c in cols]
+    v["corresponding_column"] = [attempt(lambda: pos(cc.corresponding_column(c))) for c in cols]
+    v["absent_key"] = [attempt(lambda: "no such key" in cc), attempt(lambda: cc.get("no such key") is None)]
+    return v
+
+
+def collections_view(stmt):
+    """the column collections of every selectable inside a statement / expression / Table (visitors.iterate order, each object once):
+    SelectBase.selected_columns / exported_columns / _all_selected_columns, FromClause.c / exported_columns / primary_key / foreign_keys"""
+    from sqlalchemy.sql import visitors
+    from sqlalchemy.sql.selectable import SelectBase, FromClause
+    out, seen = [], set()
+    for el in visitors.iterate(stmt):
+        if id(el) in seen or not isinstance(el, (SelectBase, FromClause)):
+            continue
+        seen.add(id(el))
+        d = dict(element=type(el).__name__ + ":" + str(getattr(el, "name", "")))
+        if isinstance(el, SelectBase):
+            d["selected_columns"] = coll_view(el.selected_columns)
+            d["exported_columns"] = coll_view(el.exported_columns)
+            d["all_selected_columns"] = [col_id(c) for c in el._all_selected_columns]
+        if isinstance(el, FromClause):
+            d["c"] = coll_view(el.c)
+            d["exported_columns"] = coll_view(el.exported_columns)
+            pk, fks = el.primary_key, el.foreign_keys      # a FunctionElement is a FromClause and a ColumnElement: primary_key is False there
+            d["primary_key"] = [col_id(c) for c in pk] if not isinstance(pk, bool) else pk
+            d["foreign_keys"] = sorted(repr(col_id(fk.parent) + col_id(fk.column)) for fk in fks) if not isinstance(fks, bool) else fks
+        out.append(d)
+    return json.loads(json.dumps(out, default=repr))
 
 
 # ------------------------------------------------------------------------------------------------ part O: mapped instances
@@ -590,32 +686,47 @@ def serializer_statements():
     ]
 
 
+MEMO = ("fresh", "memoized")
+
+
+def memoize(st):
+    """what an application does to a statement before it serializes it: look at its column collections, compile it"""
+    collections_view(st)
+    stmt_view(st)
+
+
 def part_serializer(results):
     from sqlalchemy.ext import serializer
     from sqlalchemy.orm import Session
     from sqlalchemy.sql import Select, CompoundSelect
     e = env()["e"]
-    for name, st in serializer_statements():
+    for memo in MEMO:
         for proto in PROTOCOLS:
-            case = dict(part="serializer", subject=name, protocol=proto)
-            try:
-                data = serializer.dumps(st, proto)
-                st2 = serializer.loads(data, Base.metadata)
-                if isinstance(st, (Select, CompoundSelect)):
-                    results.check(case, "S1 same compiled SQL and parameters", stmt_view(st), stmt_view(st2), True)
-                    with Session(e) as s:
-                        r1 = [[abstract(x) for x in r] for r in s.execute(st).unique().all()]
-                    with Session(e) as s:
-                        r2 = [[abstract(x) for x in r] for r in s.execute(st2).unique().all()]
-                    results.check(dict(case, subject=name + ":rows"), "S1 same rows", r1, r2, bool(r1))
-                elif name == "table-only":
-                    results.check(case, "S1 a Table deserialises to the Table of the given MetaData", True, st2 is st, False)
-                elif name == "column-only":
-                    results.check(case, "S1 a mapped attribute deserialises to the same attribute", str(st), str(st2), False)
-                else:
-                    results.check(case, "S1 same compiled SQL and parameters", stmt_view(st), stmt_view(st2), True)
-            except Exception as ex:  # noqa: BLE001
-                results.fail(case, "no-exception", "round trip succeeds", f"{type(ex).__name__}: {ex}"[:300])
+            for name, st in serializer_statements():        # built anew for every (memo, protocol): nothing memoized on them yet
+                name = name if memo == "fresh" else name + "|memoized"
+                case = dict(part="serializer", subject=name, protocol=proto)
+                try:
+                    if memo == "memoized":
+                        memoize(st)
+                    data = serializer.dumps(st, proto)
+                    st2 = serializer.loads(data, Base.metadata)
+                    if isinstance(st, (Select, CompoundSelect)):
+                        results.check(case, "S1 same compiled SQL and parameters", stmt_view(st), stmt_view(st2), True)
+                        results.check(dict(case, subject=name + ":collections"), "S3 same column collections (every read operation)",
+                                      collections_view(st), collections_view(st2), True)
+                        with Session(e) as s:
+                            r1 = [[abstract(x) for x in r] for r in s.execute(st).unique().all()]
+                        with Session(e) as s:
+                            r2 = [[abstract(x) for x in r] for r in s.execute(st2).unique().all()]
+                        results.check(dict(case, subject=name + ":rows"), "S1 same rows", r1, r2, bool(r1))
+                    elif name.startswith("table-only"):
+                        results.check(case, "S1 a Table deserialises to the Table of the given MetaData", True, st2 is st, False)
+                    elif name.startswith("column-only"):
+                        results.check(case, "S1 a mapped attribute deserialises to the same attribute", str(st), str(st2), False)
+                    else:
+                        results.check(case, "S1 same compiled SQL and parameters", stmt_view(st), stmt_view(st2), True)
+                except Exception as ex:  # noqa: BLE001
+                    results.fail(case, "no-exception", "round trip succeeds", f"{type(ex).__name__}: {ex}"[:300])
 
 
 # ------------------------------------------------------------------------------------------------ part S2: ext.serializer, schemas
@@ -743,34 +854,156 @@ def part_serializer_schema(results):
     from sqlalchemy.ext import serializer
     from sqlalchemy.orm import Session
     e = schema_env()
-    for name, kind, st in schema_statements():
+    for memo in MEMO:
         for proto in PROTOCOLS:
-            case = dict(part="serializer-schema", subject=name, protocol=proto)
-            try:
-                st2 = serializer.loads(serializer.dumps(st, proto), SMD)
-                if kind == "identity":
-                    def ident(x):
-                        tb = getattr(x, "table", x)
-                        return [type(x).__name__, str(getattr(tb, "key", None)), str(getattr(x, "key", None)), "same object" if x is st else "another object"]
-                    results.check(case, "S2 a Table / Column deserialises to the very Table / Column of the given MetaData", ident(st), ident(st2), True)
+            for name, kind, st in schema_statements():      # built anew for every (memo, protocol)
+                name = name if memo == "fresh" else name + "|memoized"
+                case = dict(part="serializer-schema", subject=name, protocol=proto)
+                try:
+                    if memo == "memoized" and kind != "identity":
+                        memoize(st)
+                    st2 = serializer.loads(serializer.dumps(st, proto), SMD)
+                    if kind == "identity":
+                        def ident(x):
+                            tb = getattr(x, "table", x)
+                            return [type(x).__name__, str(getattr(tb, "key", None)), str(getattr(x, "key", None)), "same object" if x is st else "another object"]
+                        results.check(case, "S2 a Table / Column deserialises to the very Table / Column of the given MetaData", ident(st), ident(st2), True)
+                        continue
+                    results.check(case, "S1 same compiled SQL and parameters", stmt_view(st), stmt_view(st2), True)
+                    results.check(dict(case, subject=name + ":collections"), "S3 same column collections (every read operation)",
+                                  collections_view(st), collections_view(st2), kind == "select")
+                    if kind == "select":
+                        with Session(e) as s:
+                            r1 = [[abstract(x) for x in r] for r in s.execute(st).unique().all()]
+                        with Session(e) as s:
+                            r2 = [[abstract(x) for x in r] for r in s.execute(st2).unique().all()]
+                        results.check(dict(case, subject=name + ":rows"), "S1 same rows", r1, r2, bool(r1))
+                    elif kind == "dml":
+                        rows = []
+                        for x in (st, st2):
+                            with e.connect() as c:
+                                c.execute(x)
+                                rows.append({k: [list(r) for r in c.execute(t.select().order_by(t.c.id))] for k, t in S_TABLES.items()})
+                                c.rollback()
+                        results.check(dict(case, subject=name + ":effect"), "S1 same effect on the tables (rolled back)", rows[0], rows[1], True)
+                except Exception as ex:  # noqa: BLE001
+                    results.fail(case, "no-exception", "round trip succeeds", f"{type(ex).__name__}: {ex}"[:300])
+
+
+# ------------------------------------------------------------------------------------------------ part S3: column collections with colliding keys
+_TIER = ["quick"]
+LABEL_STYLES = ("LABEL_STYLE_NONE", "LABEL_STYLE_DISAMBIGUATE_ONLY", "LABEL_STYLE_TABLENAME_PLUS_COL")
+COLL_SHAPES = ("select", "select-from-subquery", "textual-columns", "union-all")
+COLL_POOL = ("users.id", "users.name", "archive.users.id", "archive.users.rank", "notes.body AS name", "users.id+1 AS id")
+
+
+def coll_pool():
+    u, au, n = S_TABLES["users"], S_TABLES["archive.users"], S_TABLES["notes"]
+    return {"users.id": lambda: u.c.id, "users.name": lambda: u.c.name, "archive.users.id": lambda: au.c.id, "archive.users.rank": lambda: au.c.rank,
+            "notes.body AS name": lambda: n.c.body.label("name"), "users.id+1 AS id": lambda: (u.c.id + 1).label("id")}
+
+
+def coll_sequences(maxlen):
+    import itertools
+    out = []
+    for k in range(1, maxlen + 1):
+        out += list(itertools.product(COLL_POOL, repeat=k))
+    return out
+
+
+def coll_statement(shape, style, seq):
+    """a fresh statement (nothing memoized) whose column collection holds the expressions `seq` (names of COLL_POOL, repetition allowed)"""
+    import sqlalchemy
+    from sqlalchemy import select, text, union_all
+    from sqlalchemy.dialects import sqlite
+    pool = coll_pool()
+    cols = [pool[name]() for name in seq]
+    tabs = [t for t in (S_TABLES["users"], S_TABLES["archive.users"], S_TABLES["notes"]) if any(name.startswith(t.key + ".") for name in seq)]
+    st = select(*cols).set_label_style(getattr(sqlalchemy, style))
+    for a, b in zip(tabs, tabs[1:]):
+        st = st.where(a.c.id == b.c.id)
+    st = st.order_by(*[t.c.id for t in tabs])
+    if shape == "select":
+        return st
+    if shape == "select-from-subquery":
+        sq = st.order_by(None).subquery("sq")
+        return select(sq).set_label_style(getattr(sqlalchemy, style)).order_by(*sq.c)
+    if shape == "textual-columns":
+        sql = str(st.compile(dialect=sqlite.dialect(), compile_kwargs={"literal_binds": True}))
+        return text(sql).columns(*cols)
+    if shape == "union-all":
+        return union_all(st.order_by(None), st.order_by(None).where(tabs[0].c.id > 1))
+    raise ValueError(shape)
+
+
+def derived_views(st, e):
+    """for a Select: the statements derived through a by-key lookup in its column collection, `st.with_only_columns(selected_columns[k])`
+    per key k — their SQL and the rows they return ('the round-tripped statement is usable like the original')"""
+    from sqlalchemy.sql import Select
+    if not isinstance(st, Select):
+        return None
+    out = {}
+    sc = st.selected_columns
+    for k in dict.fromkeys(sc.keys()):
+        d = st.with_only_columns(sc[k])
+        with e.connect() as c:
+            out[repr(k)] = dict(sql=stmt_view(d)["sqlite"], rows=[[abstract(x) for x in r] for r in c.execute(d)])
+    return out
+
+
+def coll_rows(st, shape, e):
+    with e.connect() as c:
+        rows = [[abstract(x) for x in r] for r in c.execute(st)]
+    return sorted(rows, key=repr) if shape == "union-all" else rows      # the UNION ALL statements carry no ORDER BY
+
+
+def roundtrip(st, channel, proto, metadata):
+    from sqlalchemy.ext import serializer
+    if channel == "serializer":
+        return serializer.loads(serializer.dumps(st, proto), metadata)
+    return pickle.loads(pickle.dumps(st, proto))
+
+
+def part_collections(results):
+    """S3 on generated statements whose collections hold several columns under one key"""
+    e = schema_env()
+    seqs = coll_sequences(2 if _TIER[0] == "quick" else 3)
+    built = skipped = 0
+    for shape in COLL_SHAPES:
+        for style in LABEL_STYLES:
+            if shape == "textual-columns" and style != LABEL_STYLES[0]:
+                continue                                        # text().columns() has no label style
+            for seq in seqs:
+                try:
+                    ref = coll_statement(shape, style, seq)
+                    want = dict(collections=collections_view(ref), sql=stmt_view(ref))
+                    want_rows = coll_rows(ref, shape, e)
+                    want_derived = derived_views(ref, e)
+                except Exception:  # noqa: BLE001   SQLAlchemy refuses the statement itself (e.g. an explicit label that would have to be renamed)
+                    skipped += 1
                     continue
-                results.check(case, "S1 same compiled SQL and parameters", stmt_view(st), stmt_view(st2), True)
-                if kind == "select":
-                    with Session(e) as s:
-                        r1 = [[abstract(x) for x in r] for r in s.execute(st).unique().all()]
-                    with Session(e) as s:
-                        r2 = [[abstract(x) for x in r] for r in s.execute(st2).unique().all()]
-                    results.check(dict(case, subject=name + ":rows"), "S1 same rows", r1, r2, bool(r1))
-                elif kind == "dml":
-                    rows = []
-                    for x in (st, st2):
-                        with e.connect() as c:
-                            c.execute(x)
-                            rows.append({k: [list(r) for r in c.execute(t.select().order_by(t.c.id))] for k, t in S_TABLES.items()})
-                            c.rollback()
-                    results.check(dict(case, subject=name + ":effect"), "S1 same effect on the tables (rolled back)", rows[0], rows[1], True)
-            except Exception as ex:  # noqa: BLE001
-                results.fail(case, "no-exception", "round trip succeeds", f"{type(ex).__name__}: {ex}"[:300])
+                built += 1
+                dup = len(set(want["collections"][0].get("selected_columns", want["collections"][0].get("c"))["keys"])) < len(seq)
+                for memo in ("fresh", "memoized"):
+                    for channel in ("serializer", "pickle"):
+                        for proto in PROTOCOLS:
+                            subject = "|".join([shape, style, " , ".join(seq), channel, memo])
+                            case = dict(part="collections", subject=subject, protocol=proto)
+                            try:
+                                st = coll_statement(shape, style, seq)
+                                if memo == "memoized":          # the statement was inspected / compiled before it is serialized
+                                    collections_view(st), stmt_view(st)
+                                st2 = roundtrip(st, channel, proto, SMD)
+                                got = dict(collections=collections_view(st2), sql=stmt_view(st2))
+                                results.check(case, "S3 same column collections (every read operation), same SQL", want, got, dup)
+                                if proto == PROTOCOLS[-1]:
+                                    results.check(dict(case, subject=subject + ":rows"), "S1 same rows", want_rows, coll_rows(st2, shape, e), bool(want_rows))
+                                    if want_derived is not None:
+                                        results.check(dict(case, subject=subject + ":derived"), "S3 statements derived by key lookup: same SQL, same rows",
+                                                      want_derived, derived_views(st2, e), dup)
+                            except Exception as ex:  # noqa: BLE001
+                                results.fail(case, "no-exception", "round trip succeeds", f"{type(ex).__name__}: {ex}"[:300])
+    results.extra["collections"] = dict(statements=built, refused_by_sqlalchemy=skipped, sequences=len(seqs))
 
 
 # ------------------------------------------------------------------------------------------------ driver
@@ -780,6 +1013,7 @@ class Results:
         self.nontrivial = set()
         self.fails = []
         self.per_part = {}
+        self.extra = {}
 
     def check(self, case, clause, want, got, nontrivial):
         self.evaluations += 1
@@ -813,10 +1047,10 @@ def diff_of(a, b, path="", out=None, limit=6):
 
 
 PARTS = {"orm": part_orm, "rows": part_rows, "metadata": part_metadata, "loader-option": part_loader_options, "serializer": part_serializer,
-         "serializer-schema": part_serializer_schema}
+         "serializer-schema": part_serializer_schema, "collections": part_collections}
 FUNCTION_OF = {"orm": "InstanceState.__getstate__/__setstate__", "rows": "BaseRow.__reduce__/CursorResultMetaData.__getstate__", "metadata": "MetaData.__getstate__/__setstate__",
                "loader-option": "Load.__getstate__/__setstate__", "serializer": "ext.serializer.dumps/loads",
-               "serializer-schema": "ext.serializer.dumps/loads"}
+               "serializer-schema": "ext.serializer.dumps/loads", "collections": "ColumnCollection.__getstate__/__setstate__ via ext.serializer / pickle"}
 
 
 def run_all(parts=None):
@@ -830,9 +1064,10 @@ def run_all(parts=None):
 
 def run(run, tier, seed, args):
     t0 = time.time()
+    _TIER[0] = tier
     res = run_all()
     seen = set()
-    for f in sorted(res.fails, key=lambda f: json.dumps(f, sort_keys=True, default=repr)):
+    for f in sorted(res.fails, key=lambda f: (len(f["subject"]) if f["part"] == "collections" else 0, json.dumps(f, sort_keys=True, default=repr))):
         dj = json.dumps(f, sort_keys=True, default=repr)
         fn = FUNCTION_OF[f["part"]]
         k = run.match_known(function=fn, input=dj)
@@ -840,10 +1075,12 @@ def run(run, tier, seed, args):
             run.known_finding(k, "bounded round-trip corpus")
             continue
         cls = (f["part"], f["subject"].split(":")[0], f["clause"][:2])
+        if f["part"] == "collections":       # one replay file per (shape, label style, clause): the smallest subject first
+            cls = (f["part"], "|".join(f["subject"].split("|")[:2]), f["clause"][:2])
         if cls in seen or len(seen) >= 12:
             continue
         seen.add(cls)
-        run.violation("C51-%s-%s-%08d" % (f["part"], f["subject"].replace(":", "_"), abs(hash(dj)) % 10 ** 8),
+        run.violation("C51-%s-%s-%08d" % (f["part"], re.sub(r"[^A-Za-z0-9_.+-]+", "_", f["subject"]), abs(hash(dj)) % 10 ** 8),
                       dict(function=fn, input=f, expected=[d.get("expected") for d in f["differing"]], actual=[d.get("got") for d in f["differing"]],
                            reason="round trip changed the abstract view: " + f["clause"]))
     for p in PARTS:
@@ -857,7 +1094,8 @@ def run(run, tier, seed, args):
         evaluations=res.evaluations, evaluations_per_part=res.per_part, distinct_nontrivial=len(res.nontrivial),
         rule="one evaluation = one inverse-pair clause on one (subject, protocol); subjects enumerated from the fixed catalogues below (exhaustive over them); "
              "distinct = (part, subject, protocol, clause); non-trivial = the view has content beyond defaults (non-empty committed_state / expired_attributes / "
-             "load_options / callables / parents / info / loaded collection; rows with >= 2 columns; non-empty MetaData; every loader option; every statement)",
+             "load_options / callables / parents / info / loaded collection; rows with >= 2 columns; non-empty MetaData; every loader option; every statement; "
+             "generated colliding-key statements only when at least two columns of the collection share a key)",
         samples=[dict(subject=orm_makers()[min(27, len(orm_makers()) - 1)][0], view=sample_view),
                  dict(subject="serializer:orm-join-in", view=json.loads(json.dumps(stmt_view(serializer_statements()[1][1]), default=repr)))],
         exhaustive=True,
@@ -869,18 +1107,30 @@ def run(run, tier, seed, args):
               "MetaData with %d tables %s (same table name without schema and in two ATTACHed SQLite schemas, names that exist only in schemas, cross-schema "
               "foreign keys, column key != name): 14 single-table shapes + every bare Column x every table, 2-4 pair shapes x every ordered pair of tables, "
               "%d ORM statements on classes mapped to the schema tables; SQL text + parameters on 2 dialects, rows / DML effect on SQLite, object identity for "
-              "Table / Column" % (len(orm_makers()), sum(len(x) for x in row_sources()), len(loader_options()), len(serializer_statements()),
-                                  len(schema_statements()), len(S_TABLES), sorted(S_TABLES), sum(1 for n, _, _ in schema_statements() if n.startswith("orm:"))),
+              "Table / Column; every statement of both catalogues in the histories 'fresh' and 'memoized' (collections read and compiled before serializing), "
+              "with the column-collection view (S3) of every selectable inside it; plus GENERATED colliding-key collections: %d statements (%d refused by "
+              "SQLAlchemy itself and skipped) = every sequence of 1..%d expressions (repetition allowed, %d sequences) over the pool %s x shapes %s x label "
+              "styles %s (text().columns() has none) x {fresh, memoized} x {ext.serializer, pickle} x protocols %s: S3 view, SQL on 2 dialects, rows, and for "
+              "Select the statements derived by key lookup (SQL + rows)"
+              % (len(orm_makers()), sum(len(x) for x in row_sources()), len(loader_options()), len(serializer_statements()),
+                 len(schema_statements()), len(S_TABLES), sorted(S_TABLES), sum(1 for n, _, _ in schema_statements() if n.startswith("orm:")),
+                 res.extra["collections"]["statements"], res.extra["collections"]["refused_by_sqlalchemy"], 2 if tier == "quick" else 3,
+                 res.extra["collections"]["sequences"], list(COLL_POOL), list(COLL_SHAPES), list(LABEL_STYLES), list(PROTOCOLS)),
+        colliding_key_statements=res.extra["collections"],
         contract_failures=len(res.fails), wall_s=round(time.time() - t0, 1))
     run.assumptions += [
         "pickle itself; classes importable at module level (checks.C51)",
         "views abstract object identity: related objects by (class, primary key), Load options by cache key, load paths by their serialized form",
+        "column collections are compared through their read interface with columns named by position; anonymous label keys are numbered by first appearance; "
+        "ORM annotation wrappers (AnnotatedColumn vs Column) are not part of the view",
         "'execute to the same results' is checked on SQLite only; outside: custom types / user-defined picklers, Session pickling, AsyncSession",
     ]
 
 
 def replay(data):
     inp = data["input"]
+    if inp["part"] == "collections" and inp["subject"].split("|")[2].count(" , ") >= 2:
+        _TIER[0] = "thorough"       # sequences of three expressions are enumerated in the thorough tier only
     res = run_all(parts=[inp["part"]])
     hits = [f for f in res.fails if f["subject"] == inp["subject"] and str(f["protocol"]) == str(inp["protocol"]) and f["clause"] == inp["clause"]]
     if hits:
